@@ -2,6 +2,8 @@
    any shape incl. zero extents, uneven sizes, lists, dicts, objects), for every group size; and the
    configurations in which the code as it is does NOT deliver that (refuted statements).
    Statements only; proofs live in Proofs/ProtoP.v and Proofs/SynclibP.v.
+   [fx : fixes] selects the variant: V_code = the code as it is, V_fixed = all three repairs
+   (fx_d12, fx_d9, fx_dst); the hypotheses depend on it.
    Conventions: g = global ranks of the group members in group order, n = length g, rank index i =
    group rank, dst = synclib's ``rank`` argument, Wg = world size (slots of gathered_states). *)
 From Coq Require Import ZArith List Bool String Arith Lia.
@@ -26,19 +28,19 @@ Proof. split; [reflexivity|cbn; auto]. Qed.
 
 (* ---- 2. send_tensors: scalar fast path, equal-size fast path, pad / gather / trim ---- *)
 Theorem send_tensors_lossless :
-  forall (g : list nat) (dst : option nat) (ts : nat -> tensor) (d : nat) (z : Z),
+  forall (fx : fixes) (g : list nat) (dst : option nat) (ts : nat -> tensor) (d : nat) (z : Z),
     let n := List.length g in
-    n > 0 -> dst_ok g dst -> (forall i, i < n -> tens_ok d z (ts i)) ->
-    run_all (respond g) (map (fun i => send_tensors dst i (ts i)) (seq 0 n))
+    n > 0 -> dst_ok fx g dst -> (forall i, i < n -> tens_ok d z (ts i)) ->
+    run_all (respond g) (map (fun i => send_tensors fx g dst i (ts i)) (seq 0 n))
     = Some (map (fun i => Ok (if receives dst i then Some (map ts (seq 0 n)) else None)) (seq 0 n)).
 Proof. exact SynclibP.send_tensors_lossless. Qed.
 
 (* ---- 3. with ``rank=d`` only rank d receives ---- *)
 Theorem dst_only_receives :
-  forall (g : list nat) (d : nat) (ts : nat -> tensor) (dd : nat) (z : Z),
+  forall (fx : fixes) (g : list nat) (d : nat) (ts : nat -> tensor) (dd : nat) (z : Z),
     let n := List.length g in
-    n > 0 -> dst_ok g (Some d) -> (forall i, i < n -> tens_ok dd z (ts i)) ->
-    exists out, run_all (respond g) (map (fun i => send_tensors (Some d) i (ts i)) (seq 0 n)) = Some out /\
+    n > 0 -> dst_ok fx g (Some d) -> (forall i, i < n -> tens_ok dd z (ts i)) ->
+    exists out, run_all (respond g) (map (fun i => send_tensors fx g (Some d) i (ts i)) (seq 0 n)) = Some out /\
       List.length out = n /\
       nth d out (Exc "") = Ok (Some (map ts (seq 0 n))) /\
       forall i, i < n -> i <> d -> nth i out (Exc "") = Ok None.
@@ -50,7 +52,7 @@ Definition f2 (rows : list (list Z)) (c : nat) : tensor :=
 Definition ex_ts (i : nat) : tensor :=
   nth i [f2 [[1;2;3]]%Z 3; f2 [] 2; f2 [[4];[5]]%Z 1] (f2 [] 0).
 Example send_uneven_example :
-  run_all (respond [0;1;2]) (map (fun i => send_tensors None i (ex_ts i)) (seq 0 3))
+  run_all (respond [0;1;2]) (map (fun i => send_tensors V_code [0;1;2] None i (ex_ts i)) (seq 0 3))
   = Some (map (fun _ => Ok (Some (map ex_ts (seq 0 3)))) (seq 0 3))
   /\ (forall i, i < 3 -> tens_ok 2 0 (ex_ts i)).
 Proof.
@@ -58,83 +60,84 @@ Proof.
   intros i Hi. destruct i as [|[|[|i]]]; try lia; repeat split; cbn; auto.
 Qed.
 Example send_dst_example :
-  run_all (respond [0;1;2]) (map (fun i => send_tensors (Some 1) i (ex_ts i)) (seq 0 3))
+  run_all (respond [0;1;2]) (map (fun i => send_tensors V_code [0;1;2] (Some 1) i (ex_ts i)) (seq 0 3))
   = Some [Ok None; Ok (Some (map ex_ts (seq 0 3))); Ok None].
 Proof. vm_compute. reflexivity. Qed.
 
 (* ---- 4. _sync_obj_states ---- *)
 Theorem obj_sync_lossless :
-  forall (g : list nat) (dst : option nat) (Wg : nat) (vs : nat -> val),
+  forall (fx : fixes) (g : list nat) (dst : option nat) (Wg : nat) (vs : nat -> val),
     let n := List.length g in
-    n > 0 -> dst_ok g dst ->
-    run_all (respond g) (map (fun i => sync_obj dst i Wg (vs i)) (seq 0 n))
+    n > 0 -> dst_ok fx g dst ->
+    run_all (respond g) (map (fun i => sync_obj fx g dst i Wg (vs i)) (seq 0 n))
     = Some (map (fun i => Ok (if receives dst i then pad_slots Wg (map (fun j => GO (vs j)) (seq 0 n))
                               else untouched Wg)) (seq 0 n)).
 Proof. exact SynclibP.obj_sync_lossless. Qed.
 
 (* ---- 5. _sync_list_tensor_states: lists of different lengths (dummy tensors on short ranks), empty
-   lists on some ranks (dtype/shape broadcast; only on the world group, see subgroup_root_refuted),
-   not all lists empty (see list_all_empty_refuted) ---- *)
+   lists on some ranks (dtype/shape broadcast; V_code: only on the world group, see subgroup_root_refuted; with
+   fx_d9: any duplicate-free group), not all lists empty unless fx_d12 (see list_all_empty_refuted) ---- *)
 Theorem list_sync_lossless :
-  forall (g : list nat) (dst : option nat) (Wg : nat) (xss : nat -> list tensor) (d : nat) (z : Z),
+  forall (fx : fixes) (g : list nat) (dst : option nat) (Wg : nat) (xss : nat -> list tensor) (d : nat) (z : Z),
     let n := List.length g in
-    n > 0 -> n <= Wg -> dst_ok g dst ->
+    n > 0 -> n <= Wg -> dst_ok fx g dst ->
     (forall i, i < n -> forall t, In t (xss i) -> tens_ok d z t) ->
-    (exists i, i < n /\ xss i <> []) ->
-    ((exists i, i < n /\ xss i = []) -> g = seq 0 n) ->
-    run_all (respond g) (map (fun i => sync_list dst i Wg (xss i)) (seq 0 n))
+    (fx_d12 fx = true \/ exists i, i < n /\ xss i <> []) ->
+    ((exists i, i < n /\ xss i = []) -> (if fx_d9 fx then NoDup g else g = seq 0 n)) ->
+    run_all (respond g) (map (fun i => sync_list fx g dst i Wg (xss i)) (seq 0 n))
     = Some (map (fun i => Ok (if receives dst i then pad_slots Wg (map (fun j => GL (xss j)) (seq 0 n))
                               else untouched Wg)) (seq 0 n)).
 Proof. exact SynclibP.list_sync_lossless. Qed.
 
 (* ---- 6. _sync_dict_tensor_states when all ranks hold the same key set ---- *)
 Theorem dict_sync_lossless_same_keys :
-  forall (g : list nat) (dst : option nat) (Wg : nat) (kvs : nat -> list (string * tensor))
+  forall (fx : fixes) (g : list nat) (dst : option nat) (Wg : nat) (kvs : nat -> list (string * tensor))
          (ks : list string) (d : nat) (z : Z),
     let n := List.length g in
-    n > 0 -> n <= Wg -> dst_ok g dst -> ks <> [] ->
+    n > 0 -> n <= Wg -> dst_ok fx g dst -> (fx_d12 fx = true \/ ks <> []) ->
     (forall i, i < n -> map fst (sort_keys (kvs i)) = ks) ->
     (forall i, i < n -> forall kt, In kt (kvs i) -> tens_ok d z (snd kt)) ->
-    run_all (respond g) (map (fun i => sync_dict dst i Wg (kvs i)) (seq 0 n))
+    run_all (respond g) (map (fun i => sync_dict fx g dst i Wg (kvs i)) (seq 0 n))
     = Some (map (fun i => Ok (if receives dst i
                               then map (fun j => GD (sort_keys (kvs j))) (seq 0 n) ++ repeat (GD []) (Wg - n)
                               else untouched Wg)) (seq 0 n)).
 Proof. exact SynclibP.dict_sync_lossless_same_keys. Qed.
 
 (* ---- 7. sync_states over a mixed collection: every (metric, state) key of the traversal order is
-   addressed to the right slot of the right rank.  [ideal_family g dst Wg ss iv tl]: the sync of
+   addressed to the right slot of the right rank.  [ideal_family fx g dst Wg ss iv tl]: the sync of
    the per-rank states [ss] delivers [iv j] for rank j (slots of ranks outside the group: [tl]);
    it holds for tensor / object / list / dict states under the hypotheses of 2, 4, 5, 6. ---- *)
 Theorem ideal_family_instances :
-  forall (g : list nat) (dst : option nat) (Wg : nat) (d : nat) (z : Z),
+  forall (fx : fixes) (g : list nat) (dst : option nat) (Wg : nat) (d : nat) (z : Z),
     let n := List.length g in
-    n > 0 -> n <= Wg -> dst_ok g dst ->
+    n > 0 -> n <= Wg -> dst_ok fx g dst ->
     (forall ts, (forall i, i < n -> tens_ok d z (ts i)) ->
-       ideal_family g dst Wg (fun i => STensor (ts i)) (fun j => GT (ts j)) GEmpty) /\
-    (forall vs, ideal_family g dst Wg (fun i => SObj (vs i)) (fun j => GO (vs j)) GEmpty) /\
+       ideal_family fx g dst Wg (fun i => STensor (ts i)) (fun j => GT (ts j)) GEmpty) /\
+    (forall vs, ideal_family fx g dst Wg (fun i => SObj (vs i)) (fun j => GO (vs j)) GEmpty) /\
     (forall xss, (forall i, i < n -> forall t, In t (xss i) -> tens_ok d z t) ->
-       (exists i, i < n /\ xss i <> []) -> ((exists i, i < n /\ xss i = []) -> g = seq 0 n) ->
-       ideal_family g dst Wg (fun i => SList (xss i)) (fun j => GL (xss j)) GEmpty) /\
-    (forall kvs ks, ks <> [] -> (forall i, i < n -> map fst (sort_keys (kvs i)) = ks) ->
+       (fx_d12 fx = true \/ exists i, i < n /\ xss i <> []) ->
+       ((exists i, i < n /\ xss i = []) -> (if fx_d9 fx then NoDup g else g = seq 0 n)) ->
+       ideal_family fx g dst Wg (fun i => SList (xss i)) (fun j => GL (xss j)) GEmpty) /\
+    (forall kvs ks, (fx_d12 fx = true \/ ks <> []) -> (forall i, i < n -> map fst (sort_keys (kvs i)) = ks) ->
        (forall i, i < n -> forall kt, In kt (kvs i) -> tens_ok d z (snd kt)) ->
-       ideal_family g dst Wg (fun i => SDict (kvs i)) (fun j => GD (sort_keys (kvs j))) (GD [])).
+       ideal_family fx g dst Wg (fun i => SDict (kvs i)) (fun j => GD (sort_keys (kvs j))) (GD [])).
 Proof.
-  intros g dst Wg d z n Hn HW Hok. repeat split.
-  - intros ts Ht. exact (ideal_tensor g dst Wg ts d z Hn Hok Ht).
-  - intros vs. exact (ideal_obj g dst Wg vs Hn Hok).
-  - intros xss H1 H2 H3. exact (ideal_list g dst Wg xss d z Hn HW Hok H1 H2 H3).
-  - intros kvs ks H1 H2 H3. exact (ideal_dict g dst Wg kvs ks d z Hn HW Hok H1 H2 H3).
+  intros fx g dst Wg d z n Hn HW Hok. repeat split.
+  - intros ts Ht. exact (ideal_tensor fx g dst Wg ts d z Hn Hok Ht).
+  - intros vs. exact (ideal_obj fx g dst Wg vs Hn Hok).
+  - intros xss H1 H2 H3. exact (ideal_list fx g dst Wg xss d z Hn HW Hok H1 H2 H3).
+  - intros kvs ks H1 H2 H3. exact (ideal_dict fx g dst Wg kvs ks d z Hn HW Hok H1 H2 H3).
 Qed.
 
 Theorem mixed_collection_addressing :
-  forall (g : list nat) (dst : option nat) (Wg : nat) (mds : nat -> mdict) (order : list key)
+  forall (fx : fixes) (g : list nat) (dst : option nat) (Wg : nat) (mds : nat -> mdict) (order : list key)
          (iv : key -> nat -> gs) (tl : key -> gs),
     let n := List.length g in
     n <= Wg ->
     (forall k, In k order -> exists ss, (forall i, i < n -> lookup2 (mds i) k = Some (ss i)) /\
-                                        ideal_family g dst Wg ss (iv k) (tl k)) ->
+                                        ideal_family fx g dst Wg ss (iv k) (tl k)) ->
     exists gath,
-      run_all (respond g) (map (fun i => sync_states dst i Wg (mds i) order) (seq 0 n))
+      run_all (respond g) (map (fun i => sync_states fx g dst i Wg (mds i) order) (seq 0 n))
       = Some (map (fun i => Ok (if receives dst i then Some gath else None)) (seq 0 n)) /\
       List.length gath = Wg /\
       (forall j k, j < n -> In k order -> get_key k (nth j gath []) = Some (iv k j)) /\
@@ -144,13 +147,13 @@ Proof. exact SynclibP.mixed_collection_addressing. Qed.
 (* when the traversal keys are distinct, the gathered dicts are exactly the dicts of ideal values in
    traversal order (slot j < n: rank j's values; other slots: the fillers) *)
 Theorem mixed_collection_exact :
-  forall (g : list nat) (dst : option nat) (Wg : nat) (mds : nat -> mdict) (order : list key)
+  forall (fx : fixes) (g : list nat) (dst : option nat) (Wg : nat) (mds : nat -> mdict) (order : list key)
          (iv : key -> nat -> gs) (tl : key -> gs),
     let n := List.length g in
     n <= Wg -> NoDup order ->
     (forall k, In k order -> exists ss, (forall i, i < n -> lookup2 (mds i) k = Some (ss i)) /\
-                                        ideal_family g dst Wg ss (iv k) (tl k)) ->
-    run_all (respond g) (map (fun i => sync_states dst i Wg (mds i) order) (seq 0 n))
+                                        ideal_family fx g dst Wg ss (iv k) (tl k)) ->
+    run_all (respond g) (map (fun i => sync_states fx g dst i Wg (mds i) order) (seq 0 n))
     = Some (map (fun i => Ok (if receives dst i then Some (ideal_gath n Wg order iv tl) else None)) (seq 0 n)).
 Proof. exact SynclibP.mixed_collection_exact. Qed.
 
@@ -163,7 +166,7 @@ Definition ex_md (i : nat) : mdict :=
 Example mixed_example :
   traversal (ex_md 0) = [("a","d"); ("a","l"); ("b","o"); ("b","t")] /\
   exists gath,
-    run_all (respond [0;1;2]) (map (fun i => sync_states (Some 1) i 3 (ex_md i) (traversal (ex_md i))) (seq 0 3))
+    run_all (respond [0;1;2]) (map (fun i => sync_states V_code [0;1;2] (Some 1) i 3 (ex_md i) (traversal (ex_md i))) (seq 0 3))
     = Some [Ok None; Ok (Some gath); Ok None] /\
     map (get_key ("b","t")) gath = map (fun j => Some (GT (ex_ts j))) (seq 0 3) /\
     map (get_key ("b","o")) gath = map (fun j => Some (GO (VZ (Z.of_nat j)))) (seq 0 3) /\
@@ -178,7 +181,7 @@ Definition v1 (l : list Z) : tensor := mkT 0 [List.length l] (TArr (map (fun z =
 (* D12: every rank holds an empty list: the gathered value is the ``{}`` placeholder, not [] *)
 Theorem list_all_empty_refuted :
   exists out,
-    run_all (respond [0;1]) (map (fun i => sync_states None i 2 [("m", [("x", SList [])])] [("m","x")]) (seq 0 2))
+    run_all (respond [0;1]) (map (fun i => sync_states V_code [0;1] None i 2 [("m", [("x", SList [])])] [("m","x")]) (seq 0 2))
     = Some [Ok (Some out); Ok (Some out)]
     /\ get_key ("m","x") (nth 0 out []) = Some GEmpty /\ get_key ("m","x") (nth 1 out []) = Some GEmpty
     /\ GEmpty <> GL [].
@@ -187,29 +190,30 @@ Proof. eexists. split; [vm_compute; reflexivity|]. repeat split; discriminate. Q
 (* D11: dict states with different key sets: rank 0 ({a}) receives rank 1's {b:10, c:20} as {a:10}
    (mis-keyed and truncated); rank 1 receives rank 0's {a:1} as {b:1} *)
 Theorem dict_unequal_keys_refuted :
+  forall fx : fixes,
   let kv i := nth i [[("a", sc 1)]; [("b", sc 10); ("c", sc 20)]] [] in
   exists out0 out1,
-    run_all (respond [0;1]) (map (fun i => sync_states None i 2 [("m", [("x", SDict (kv i))])] [("m","x")]) (seq 0 2))
+    run_all (respond [0;1]) (map (fun i => sync_states fx [0;1] None i 2 [("m", [("x", SDict (kv i))])] [("m","x")]) (seq 0 2))
     = Some [Ok (Some out0); Ok (Some out1)]
     /\ get_key ("m","x") (nth 1 out0 []) = Some (GD [("a", sc 10)])
     /\ get_key ("m","x") (nth 0 out1 []) = Some (GD [("b", sc 1)]).
-Proof. do 2 eexists. split; [vm_compute; reflexivity|]. split; reflexivity. Qed.
+Proof. intros fx. do 2 eexists. split; [vm_compute; reflexivity|]. split; reflexivity. Qed.
 
 (* D9: sub-group [1;2] of a world of 3; the member with data has group rank 1, which
    _sync_dtype_and_shape hands to broadcast_object_list as a GLOBAL rank: global rank 1 is the
    member WITHOUT data -> dtype, shape = None -> TypeError on every member *)
 Theorem subgroup_root_refuted :
   run_all (respond [1;2])
-    (map (fun i => sync_states None i 3 [("m", [("x", SList (nth i [[]; [v1 [1;2]%Z]] []))])] [("m","x")]) (seq 0 2))
+    (map (fun i => sync_states V_code [1;2] None i 3 [("m", [("x", SList (nth i [[]; [v1 [1;2]%Z]] []))])] [("m","x")]) (seq 0 2))
   = Some [Exc "TypeError"; Exc "TypeError"].
 Proof. vm_compute. reflexivity. Qed.
 
 (* ``rank=1`` in the sub-group [1;2]: group rank 1 builds the gather list, but dist.gather reads
    dst=1 as a global rank (group rank 0) -> ValueError on every member *)
 Theorem subgroup_dst_refuted :
-  run_all (respond [1;2]) (map (fun i => send_tensors (Some 1) i (nth i [v1 [1]%Z; v1 [1;2]%Z] (sc 0))) (seq 0 2))
+  run_all (respond [1;2]) (map (fun i => send_tensors V_code [1;2] (Some 1) i (nth i [v1 [1]%Z; v1 [1;2]%Z] (sc 0))) (seq 0 2))
   = Some [Exc "ValueError"; Exc "ValueError"]
-  /\ ~ dst_ok [1;2] (Some 1).
+  /\ ~ dst_ok V_code [1;2] (Some 1).
 Proof.
   split; [vm_compute; reflexivity|]. intros [_ H]. specialize (H 0 ltac:(cbn; lia)). discriminate.
 Qed.
@@ -217,8 +221,66 @@ Qed.
 (* D10 at synclib level: a scalar on one rank and a 1-D tensor on the other: the ranks issue
    different collectives *)
 Theorem ndim_mismatch_refuted :
-  run_all (respond [0;1]) (map (fun i => send_tensors None i (nth i [sc 1; v1 [1;2]%Z] (sc 0))) (seq 0 2)) = None.
-Proof. vm_compute. reflexivity. Qed.
+  forall fx : fixes,
+  run_all (respond [0;1]) (map (fun i => send_tensors fx [0;1] None i (nth i [sc 1; v1 [1;2]%Z] (sc 0))) (seq 0 2)) = None.
+Proof. intros fx. vm_compute. reflexivity. Qed.
+
+(* ---- 9. the repaired variant on exactly the refuted witnesses, and the headline corollaries ---- *)
+(* any duplicate-free group, any named rank d < n *)
+Theorem send_tensors_lossless_fixed :
+  forall (g : list nat) (dst : option nat) (ts : nat -> tensor) (d : nat) (z : Z),
+    let n := List.length g in
+    n > 0 -> NoDup g -> (match dst with Some d => d < n | None => True end) ->
+    (forall i, i < n -> tens_ok d z (ts i)) ->
+    run_all (respond g) (map (fun i => send_tensors V_fixed g dst i (ts i)) (seq 0 n))
+    = Some (map (fun i => Ok (if receives dst i then Some (map ts (seq 0 n)) else None)) (seq 0 n)).
+Proof. exact SynclibP.send_tensors_lossless_fixed. Qed.
+
+(* NO all-empty exception, ANY duplicate-free group *)
+Theorem list_sync_lossless_fixed :
+  forall (g : list nat) (dst : option nat) (Wg : nat) (xss : nat -> list tensor) (d : nat) (z : Z),
+    let n := List.length g in
+    n > 0 -> n <= Wg -> NoDup g -> (match dst with Some d => d < n | None => True end) ->
+    (forall i, i < n -> forall t, In t (xss i) -> tens_ok d z t) ->
+    run_all (respond g) (map (fun i => sync_list V_fixed g dst i Wg (xss i)) (seq 0 n))
+    = Some (map (fun i => Ok (if receives dst i then pad_slots Wg (map (fun j => GL (xss j)) (seq 0 n))
+                              else untouched Wg)) (seq 0 n)).
+Proof. exact SynclibP.list_sync_lossless_fixed. Qed.
+
+(* D12 repaired (fx_d12 alone suffices): every rank obtains [] for every member *)
+Theorem list_all_empty_fixed :
+  exists out,
+    run_all (respond [0;1])
+      (map (fun i => sync_states (mkFx true false false) [0;1] None i 2 [("m", [("x", SList [])])] [("m","x")]) (seq 0 2))
+    = Some [Ok (Some out); Ok (Some out)]
+    /\ get_key ("m","x") (nth 0 out []) = Some (GL []) /\ get_key ("m","x") (nth 1 out []) = Some (GL [])
+    /\ run_all (respond [0;1])
+         (map (fun i => sync_states V_fixed [0;1] None i 2 [("m", [("x", SList [])])] [("m","x")]) (seq 0 2))
+       = Some [Ok (Some out); Ok (Some out)].
+Proof. eexists. split; [vm_compute; reflexivity|]. repeat split. Qed.
+
+(* D9 repaired: the sub-group [1;2] of a world of 3 *)
+Theorem subgroup_root_fixed :
+  exists out,
+    run_all (respond [1;2])
+      (map (fun i => sync_states V_fixed [1;2] None i 3 [("m", [("x", SList (nth i [[]; [v1 [1;2]%Z]] []))])] [("m","x")]) (seq 0 2))
+    = Some [Ok (Some out); Ok (Some out)]
+    /\ get_key ("m","x") (nth 0 out []) = Some (GL [])
+    /\ get_key ("m","x") (nth 1 out []) = Some (GL [v1 [1;2]%Z])
+    /\ get_key ("m","x") (nth 2 out []) = Some GEmpty.
+Proof. eexists. split; [vm_compute; reflexivity|]. repeat split. Qed.
+
+(* ``rank=1`` in the sub-group [1;2] repaired: group rank 1 receives, group rank 0 does not *)
+Theorem subgroup_dst_fixed :
+  let ts i := nth i [v1 [1]%Z; v1 [1;2]%Z] (sc 0) in
+  run_all (respond [1;2]) (map (fun i => send_tensors V_fixed [1;2] (Some 1) i (ts i)) (seq 0 2))
+  = Some [Ok None; Ok (Some [ts 0; ts 1])]
+  /\ dst_ok V_fixed [1;2] (Some 1).
+Proof.
+  split; [vm_compute; reflexivity|]. split; [cbn; lia|]. cbn [fx_dst V_fixed].
+  repeat constructor; cbn; intuition discriminate.
+Qed.
+
 
 Print Assumptions traced_runner_agrees.
 Print Assumptions pad_slice_roundtrip.
@@ -235,3 +297,8 @@ Print Assumptions dict_unequal_keys_refuted.
 Print Assumptions subgroup_root_refuted.
 Print Assumptions subgroup_dst_refuted.
 Print Assumptions ndim_mismatch_refuted.
+Print Assumptions send_tensors_lossless_fixed.
+Print Assumptions list_sync_lossless_fixed.
+Print Assumptions list_all_empty_fixed.
+Print Assumptions subgroup_root_fixed.
+Print Assumptions subgroup_dst_fixed.
